@@ -31,6 +31,31 @@ func calls(n ast.Node, tracked func(string) bool) []string {
 	return out
 }
 
+// sessionSaves: in source order, "recv" for every c.receiveResponse() and "save" for every assignment
+// `c.rsession = <resp>.Header.Get(FieldSession)`
+func sessionSaves(n *ast.BlockStmt) []string {
+	var out []string
+	if n == nil {
+		return out
+	}
+	ast.Inspect(n, func(x ast.Node) bool {
+		switch v := x.(type) {
+		case *ast.CallExpr:
+			if name := Src(v.Fun); name == "c.receiveResponse" {
+				out = append(out, "recv")
+			}
+		case *ast.AssignStmt:
+			if len(v.Lhs) == 1 && len(v.Rhs) == 1 && Src(v.Lhs[0]) == "c.rsession" && v.Tok.String() == "=" {
+				if strings.HasSuffix(Src(v.Rhs[0]), ".Header.Get(FieldSession)") {
+					out = append(out, "save")
+				}
+			}
+		}
+		return true
+	})
+	return out
+}
+
 func oneOf(names ...string) func(string) bool {
 	return func(s string) bool {
 		for _, n := range names {
@@ -213,6 +238,9 @@ func init() {
 		}
 		emitList(e, "rwrCalls", "requestWithResponse: tracked calls in source order", rwrCalls)
 		emitList(e, "rwrConds", "requestWithResponse: if conditions in source order", rwrConds)
+		// every response received is followed by `c.rsession = resp.Header.Get(FieldSession)`: the session id of the
+		// answer to an authenticated repetition (the one a challenged SETUP hands out) is kept as well
+		emitList(e, "rwrSessionSaves", "requestWithResponse: receiveResponse calls (recv) and assignments of the response's Session header to c.rsession (save) in source order", sessionSaves(rb))
 
 		// ---- receiveResponse: deadline before the blocking read
 		vb := body(pc, "PullClient", "receiveResponse")
